@@ -228,7 +228,7 @@ func writeEvidence(tier string, seed uint64, digest string, info map[string]inte
 		"wall_s":     wall,
 		"violations": nviol,
 	}
-	dir := filepath.Join(verifDir, "evidence")
+	dir := filepath.Join(outDir, "evidence")
 	os.MkdirAll(dir, 0o755)
 	b, _ := json.MarshalIndent(ev, "", " ")
 	tmp := filepath.Join(dir, "C19.json.tmp")
